@@ -89,6 +89,8 @@ def build_jobs(spec, tier, known, solver):
                 "makeslice_max": h.get("makeslice_max", 0),
                 "inject_failures": h.get("inject_failures", False),
                 "natural_models": h.get("natural_models", False),
+                "_fp_confirm": h.get("fp_confirm", False),
+                "_fp_seconds": h.get("fp_seconds", 300),
                 "max_seconds": h.get("max_seconds_" + tier, h.get("max_seconds", 600 if tier == "quick" else 7200)),
                 "known": [k for k in known if k.get("harness") in (None, h["func"])],
                 "_pkg": h.get("pkg", spec["pkg"]),
@@ -249,12 +251,49 @@ def run_check(prop, tier, seed, spec, entries, ov, solver, workdir, t0, known):
         if h["status"] == "inconclusive":
             inconclusive.append("%s%s: %s" % (h["func"], h.get("params") or "", h["inconclusive"]))
 
+    # ---- refinement pass for harnesses that abstract floating point ----
+    # The first pass treats every float64 result as arbitrary (sound for "holds"). Where that
+    # pass produced counterexamples and the harness asks for it (fp_confirm), the same case is
+    # re-run with floats encoded in the solver's IEEE-754 theory: counterexamples of that pass
+    # are real float behaviours (replayed natively like any other); if it explores the case
+    # completely without a counterexample, the abstract ones are refuted and dropped; if it
+    # runs out of budget the abstract ones stay (and end as INCONCLUSIVE unless they replay).
+    fp_jobs = []
+    bykey = {(e["func"], json.dumps(e["params"], sort_keys=True)): e for e in entries}
+    for h in hres:
+        e = bykey.get((h["func"], json.dumps(h.get("params") or {}, sort_keys=True)))
+        if e and e.get("_fp_confirm") and h.get("findings") and h["status"] != "inconclusive":
+            e2 = dict(e)
+            e2.update({"fp_precise": True, "timeout_ms": 60000, "max_seconds": e["_fp_seconds"], "natural_models": False})
+            fp_jobs.append((h, e2))
+    if fp_jobs:
+        with ThreadPoolExecutor(max_workers=par) as ex:
+            futs = [ex.submit(run_gosx, 1000 + i, e2["_pkg"], [e2], ov, solver, seed, workdir, spec.get("src_pkgs")) for i, (h, e2) in enumerate(fp_jobs)]
+            for (h, e2), f in zip(fp_jobs, futs):
+                r = f.result()
+                got = (r.get("harnesses") or [None])[0]
+                if got is None:
+                    continue
+                h["fp_pass"] = {"status": got["status"], "paths": got.get("paths"), "queries": got.get("queries"), "solver_s": got.get("solver_s"), "inconclusive": got.get("inconclusive")}
+                if got["status"] == "inconclusive":
+                    continue
+                if got.get("findings"):
+                    for fnd in got["findings"]:
+                        fnd["msg"] = fnd["msg"] + " [IEEE-754 pass]"
+                    h["findings"] = got["findings"] + h["findings"]
+                else:
+                    h["refuted"] = [f["msg"] for f in h["findings"]]
+                    h["findings"] = []
+                    if h["status"] == "findings":
+                        h["status"] = "ok"
+
     # ---- native replays: counterexamples, known hits, passing samples ----
     replay_dir = os.path.join(ROOT, "replays", prop)
     os.makedirs(replay_dir, exist_ok=True)
     for fn in os.listdir(replay_dir):
         os.remove(os.path.join(replay_dir, fn))
     items_by_pkg = {}
+    search_n = {hh["func"]: hh.get("native_search", 0) for hh in spec["harnesses"]}
     refs = []  # (pkg, index, kind, harnessresult, finding|sample)
     nsamp = 0
     max_samples = spec.get("native_samples_" + tier, spec.get("native_samples", 12))
@@ -266,6 +305,10 @@ def run_check(prop, tier, seed, spec, entries, ov, solver, workdir, t0, known):
             # random choice among ready select cases one replay may take the other branch
             for _ in range(REPLAY_TRIES):
                 lst.append({"harness": h["func"], "model": f["model"], "params": h.get("params") or {}})
+            # harnesses over an abstraction (floating point) may ask for a native search for a
+            # concrete witness when the solver's own inputs do not reproduce
+            lst.append({"harness": h["func"], "model": {}, "params": h.get("params") or {}, "search": search_n.get(h["func"], 0)} if search_n.get(h["func"]) else
+                       {"harness": h["func"], "model": f["model"], "params": h.get("params") or {}})
     order = list(range(len(hres)))
     random.Random(seed).shuffle(order)
     for i in order:
@@ -294,9 +337,12 @@ def run_check(prop, tier, seed, spec, entries, ov, solver, workdir, t0, known):
     for pkg, idx, kind, h, x in refs:
         rep = reports[pkg][idx]
         if kind == "finding":
-            for alt in reports[pkg][idx:idx + REPLAY_TRIES]:
+            for alt in reports[pkg][idx:idx + REPLAY_TRIES + 1]:
                 if reproduced(x, alt):
                     rep = alt
+                    if alt.get("model"):
+                        # witness found by the native search: these are the inputs to replay
+                        x = dict(x, model=alt["model"], msg=x["msg"] + " [witness found by native search over the harness inputs]")
                     break
             nrep += 1
             rp = os.path.join(replay_dir, "%s-%d.json" % (h["func"], nrep))
